@@ -165,6 +165,7 @@ def sweep_c08():
         shapes += ['%s[]' % e, 'List<%s>' % e, 'Map<String,%s>' % e, 'Map<%s,String>' % e]
     shapes += ['List', 'Map', 'List<List<int[]>>', 'Map<String,List<int>>', 'List<Map<String,int>>', 'Map<String,Map<int,String>>', 'List<List<List<int>>>', 'Map<String,List<En[]>>',
                'List<Map<int,List<int>>>', 'List<CharSequence[]>', 'Map<String,Ifc[]>', 'List<Par>[]', 'Map<String,Map<String,Map<String,int>>>',
+               'List[]', 'Map[]', 'List<List>', 'List<Map>', 'Map<List,String>', 'Map<Map,String>', 'Map<String,List<Map>>',
                'Map<String,List<int>>[]', 'List<List<int>>[]', 'Map<int,String>[][]', 'Map<String,List>[]', 'List<Map<String,List<int>>[]>', 'Map<String,Map>[]', 'List<List<Map<int,int>>>[]']
     n, bad = 0, []
     for posn in ('ret', 'arg', 'const', 'field', 'pconst'):
@@ -431,17 +432,21 @@ def sweep_c05():
     # built-ins stay built-ins when imported; near misses
     text = ('package p;\nimport android.os.ParcelFileDescriptor;\nimport p.q.Foo;\ninterface I {\n  void a(in ParcelFileDescriptor x);\n  void b(in android.os.ParcelFileDescriptor x);\n'
             '  void c(in XFoo x);\n  void d(in q.Foo x);\n  void e(in other.q.Foo x);\n  void f(in IBinder x);\n  void g(in Foo x);\n  void h(in Sibling x);\n  void i(in p.Sibling x);\n}\n')
+    # a QUALIFIED forward declaration does not put its last segment in scope (`parcelable other.pkg.Qd;` + reference `Qd`)
+    # an import whose last identifier merely ENDS with the written name does not match it (`import a.b.XOther;` + reference `Other`)
+    text = text.replace('import p.q.Foo;', 'import p.q.Foo;\nimport a.b.XOther;').replace('  void h(', '  void n(in Other x);\n  void h(')
+    text = text.replace('interface I {', 'parcelable other.pkg.Qd;\nparcelable Ud;\ninterface I {').replace('  void h(', '  void j(in Qd x);\n  void k(in List<Qd> x);\n  void l(in Ud x);\n  void h(')
     # Sibling lives in the same package but is not imported: AIDL has no implicit same-package scope
     r2 = replay.project({'main.aidl': text, 'foo.aidl': 'package p.q;\nparcelable Foo { int a; }\n', 'sib.aidl': 'package p;\nparcelable Sibling { int a; }\n'})
     fr = r2['files']['main.aidl']['valid']
     kinds = {m['name']: m['args'][0]['type']['kind'] for m in fr['ast']['members']}
     want = {'a': 'android:ParcelFileDescriptor', 'b': 'android:ParcelFileDescriptor', 'c': 'unresolved', 'e': 'unresolved', 'f': 'android:IBinder', 'g': 'resolved:p.q.Foo:Parcelable',
-            'd': 'resolved:p.q.Foo:Parcelable', 'h': 'unresolved', 'i': 'unresolved'}
+            'd': 'resolved:p.q.Foo:Parcelable', 'h': 'unresolved', 'i': 'unresolved', 'j': 'unresolved', 'l': 'resolved:Ud:ForwardDeclaredParcelable', 'n': 'unresolved'}
     for k, v in want.items():
         n += 1
         if kinds.get(k) != v:
             bad.append({'method': k, 'what': 'type classified as %s, expected %s' % (kinds.get(k), v)})
-    for k in ('c', 'e', 'h', 'i'):
+    for k in ('c', 'e', 'h', 'i', 'j', 'n'):
         m = [x for x in fr['ast']['members'] if x['name'] == k][0]
         errs = [d for d in fr['diags'] if d['range'][:2] == m['args'][0]['type']['sym'][:2] and d['kind'] == 'Error' and 'Unknown type' in d['message']]
         if len(errs) != 1:
@@ -913,6 +918,8 @@ def sweep_c13():
         ('add unrelated file', dict(base, **{'e.aidl': 'package s; parcelable E { int y; }'})),
         ('remove non-imported file', {k: v for k, v in base.items() if k != 'd.aidl'}),
         ('rewrite body of imported parcelable', dict(base, **{'b.aidl': 'package p;\nimport q.C;\n/** doc */ parcelable B { String s; C c; const int K = 3; }'})),
+        ('rewrite docs of imported parcelable', dict(base, **{'b.aidl': 'package p;\n/** A doc.\n * @deprecated use something else\n */\nparcelable B { int x; }'})),
+        ('rewrite docs and annotations of imported enum', dict(base, **{'c.aidl': 'package q;\n/** @deprecated */ @Deprecated enum C { X, Y }'})),
         ('rewrite body of imported enum', dict(base, **{'c.aidl': 'package q; @Backing(type="byte") enum C { Z = 1 }'})),
         ('imported file gains a validation error', dict(base, **{'b.aidl': 'package p; parcelable B { Unknown u; }'})),
         ('imported file gains a recovered syntax error', dict(base, **{'b.aidl': 'package p; parcelable B { int x; int ; }'})),
